@@ -3,28 +3,32 @@
 (* Python (PrintT(ToJson(case)) as an invariant).  Every wrapper starts all generators in their single initial  *)
 (* state and steps exactly one of them.                                                                         *)
 EXTENDS Totality, TotalityValues, Json
-AllInit == GInit /\ LInit /\ PInit /\ YInit /\ VInit /\ RInit /\ KInit
+AllInit == GInit /\ LInit /\ PInit /\ YInit /\ VInit /\ RInit /\ KInit /\ DInit
 \* G: modules made of fragments
 Init == AllInit
-Next == GNext /\ UNCHANGED <<lvars, pvars, yvars, vvars, rvars, kvars>>
+Next == GNext /\ UNCHANGED <<lvars, pvars, yvars, vvars, rvars, kvars, dvars>>
 EmitDone == stage = "done" => PrintT(ToJson([prog |-> prog]))
 \* P: the abstract position model (no emission: checked against PosProperty)
 PosInit == AllInit
-PosNext == PNext /\ UNCHANGED <<gvars, lvars, yvars, vvars, rvars, kvars>>
+PosNext == PNext /\ UNCHANGED <<gvars, lvars, yvars, vvars, rvars, kvars, dvars>>
 \* Y: layouts
 LayInit == AllInit
-LayNext == YNext /\ UNCHANGED <<gvars, lvars, pvars, vvars, rvars, kvars>>
+LayNext == YNext /\ UNCHANGED <<gvars, lvars, pvars, vvars, rvars, kvars, dvars>>
 EmitLayout == ystage = "done" => PrintT(ToJson([layout |-> lay]))
 \* V: pairs of Value terms; R: (object, type) pairs for the runtime API
 ValInit == AllInit
-ValNext == VNext /\ UNCHANGED <<gvars, lvars, pvars, yvars, rvars, kvars>>
+ValNext == VNext /\ UNCHANGED <<gvars, lvars, pvars, yvars, rvars, kvars, dvars>>
 EmitPair == vstage = "done" => PrintT(ToJson([a |-> vcase.a, b |-> vcase.b, fam |-> (vcase.a \in CallFamily /\ vcase.b \in CallFamily),
                                                       big |-> (IsBigUnion(vcase.a) \/ IsBigUnion(vcase.b))]))
 RtInit == AllInit
-RtNext == RNext /\ UNCHANGED <<gvars, lvars, pvars, yvars, vvars, kvars>>
+RtNext == RNext /\ UNCHANGED <<gvars, lvars, pvars, yvars, vvars, kvars, dvars>>
 EmitRt == rstage = "done" => PrintT(ToJson(rcase))
 \* K: constant-folding cases
 ConstInit == AllInit
-ConstNext == KNext /\ UNCHANGED <<gvars, lvars, pvars, yvars, vvars, rvars>>
+ConstNext == KNext /\ UNCHANGED <<gvars, lvars, pvars, yvars, vvars, rvars, dvars>>
 EmitConst == kstage = "done" => PrintT(ToJson([const |-> kcase]))
+\* D: declaration-level class bodies
+DeclInit == AllInit
+DeclNext == DNext /\ UNCHANGED <<gvars, lvars, pvars, yvars, vvars, rvars, kvars>>
+EmitDecl == dstage = "done" => PrintT(ToJson([decl |-> dcase]))
 =============================================================================
